@@ -3,6 +3,8 @@ import QipVerif.Lemmas.GateC
 import QipVerif.Lemmas.GateDoc
 import QipVerif.Lemmas.GateCtrl
 import QipVerif.Lemmas.GateExact
+import QipVerif.Lemmas.GateCtor
+import QipVerif.Gen.GateCtor
 import QipVerif.Model.Circuit
 /-!
 # C09 — library gates are unitary, match their documented matrix, and are path-independent
@@ -393,6 +395,194 @@ theorem controlled_gate_mixed_shapes (c t : Int) (cs ts : List Int) (N? : Option
 theorem controlled_gate_mixed_shapes_witness :
     controlledGate .targets (.scalar 0) (.list [1]) none 1 = .error .lenOfInt ∧
     controlledGate .targets (.list [0]) (.scalar 1) none 1 = .error .nested := ⟨rfl, rfl⟩
+
+/-! ## Constructor arguments of the gate classes
+
+`Gen.G.ctorTable` / `Gen.G.ctorPolicy` (regenerated from the class bodies of gateclass.py on every check) describe the
+`__init__` chain of every key of GATE_CLASS_MAP, of `ControlledGate` with every single-qubit target class and of the
+generic `Gate(name)`; `GateCtor.construct` / `GateCtor.compact` (Model/GateCtor.lean) are the model of a keyword request
+`Class(targets=…, controls=…, arg_value=…, control_value=…)` and of `get_compact_qobj()` of the object, compared with the
+implementation on the complete grid of argument shapes.  A request is either refused or served with the documented
+matrix on the control value the object carries; accepted-but-wrong is excluded by the theorems below, except for the two
+request classes with a proved counterexample (`ctor_cphase_counterexample`, `ctor_fixed_counterexample`). -/
+open QipVerif.GateCtor
+
+/-- **What the hard-coded matrices are built on** (`GateCtor.hardOf`): the gate functions that classes return WITHOUT
+reading `control_value` are block matrices on one control with value 1 — `ctrl U` is `ctrlN 1 1 U` (`ctrl_is_ctrlN`) — for
+cnot, csign, cphase, cy_gate, cz_gate, cs_gate, ct_gate (and the generic `controlled_gate(rx(arg))` … with its default
+control_value=1), on one control with value 1 and SWAP on the other two qubits for fredkin, on two controls with value 3
+(both 1) and X on the last qubit for toffoli -/
+theorem hard_values_sound (θ : ℝ) :
+    G.cnot_ = ctrl G.x_gate_ ∧ G.csign_ = ctrl G.z_gate_ ∧ G.cphase_ θ = ctrl (G.phasegate_ θ) ∧
+    G.cy_gate_ = ctrl G.y_gate_ ∧ G.cz_gate_ = ctrl G.z_gate_ ∧ G.cs_gate_ = ctrl G.s_gate_ ∧ G.ct_gate_ = ctrl G.t_gate_ ∧
+    (∀ i j : Fin 8, G.toffoli_ i j =
+      if i.val / 2 = j.val / 2 then
+        (if i.val / 2 = 3 then G.x_gate_ ⟨i.val % 2, by omega⟩ ⟨j.val % 2, by omega⟩ else if i = j then 1 else 0)
+      else 0) ∧
+    (∀ i j : Fin 8, G.fredkin_ i j =
+      if i.val / 4 = j.val / 4 then
+        (if i.val / 4 = 1 then G.swap_ ⟨i.val % 4, by omega⟩ ⟨j.val % 4, by omega⟩ else if i = j then 1 else 0)
+      else 0) ∧
+    (["cnot()", "csign()", "cphase(arg)", "cy_gate()", "cz_gate()", "cs_gate()", "ct_gate()", "fredkin()",
+      "controlled_gate(rx(arg))", "controlled_gate(ry(arg))", "controlled_gate(rz(arg))"].all
+        (fun s => hardOf s == some (1, 1))) = true ∧
+    hardOf "toffoli()" = some (2, 3) := by
+  obtain ⟨h1, h2, h3, h4, h5, h6⟩ := controlled_fixed_block
+  refine ⟨h1, h2, GateDoc.cphase_eq_ctrl θ, h3, h4, h5, h6, ?_, ?_, by decide, by decide⟩
+  · intro i j; fin_cases i <;> fin_cases j <;> simp [G.toffoli_, G.x_gate_]
+  · intro i j; fin_cases i <;> fin_cases j <;> simp [G.fredkin_, G.swap_]
+
+/-- every entry of the regenerated table meets `ClassInfo.hardSound`: a class of the ControlledGate hierarchy whose
+`get_compact_qobj` does not read `self.control_value` runs the guard of `_OneControlledGate.__init__` and the TwoQubitGate
+guard, its matrix is built on ONE control with the guard's default value, and the guard accepts no other value -/
+theorem ctor_table_sound : (G.ctorTable.all fun e => e.hardSound G.ctorPolicy) = true := by decide
+
+/-- **Every class whose `get_compact_qobj` ignores `control_value` refuses a control value other than its hard-coded
+one**: for every class of the ControlledGate hierarchy in the regenerated table that does not read `self.control_value`
+(CNOT, CZ, CSIGN, CPHASE in the current source) and EVERY request, an accepted object carries control_value 1 on exactly
+one control — the value and number of controls its matrix is built on (`hard_values_sound`) — and a given control_value
+that the constructor chain hands on is 1 -/
+theorem ctor_hardcoded_refuses :
+    ∀ e ∈ G.ctorTable, e.controlled = true → e.usesCV = false → ∀ (r : Req) (o : Obj),
+      construct G.ctorPolicy e r = .ok o →
+        hardOf e.spec = some (1, 1) ∧ o.cv = some 1 ∧ (∃ c, o.controls = some [c]) ∧
+        (∀ v, r.cv = .int v → e.fwdCV = true → v = 1) := by
+  intro e he hc hu r o h
+  have hs := List.all_eq_true.mp ctor_table_sound e he
+  have hd : G.ctorPolicy.dflt = 1 := by
+    -- the default is part of `hardSound` for every hard-coded class; read it off the entry at hand
+    unfold ClassInfo.hardSound at hs
+    simp only [hc, hu, Bool.not_true, Bool.false_or, Bool.and_eq_true, beq_iff_eq] at hs
+    have h1 := hs.1.2
+    unfold hardOf at h1
+    split at h1
+    · have h1' : (1 : Int) = G.ctorPolicy.dflt := by simpa using h1
+      exact h1'.symm
+    · split at h1 <;> simp at h1
+  have := construct_hard hs hc hu h
+  rw [hd] at this
+  exact this
+
+example : ∃ e ∈ G.ctorTable, e.key = "CNOT" ∧ e.controlled = true ∧ e.usesCV = false ∧
+    construct G.ctorPolicy e ⟨.scalar 1, .scalar 0, .absent, .int 1⟩ = .ok ⟨some [1], some [0], some 1⟩ ∧
+    construct G.ctorPolicy e ⟨.scalar 1, .scalar 0, .absent, .int 0⟩ = .error .cvRefused := by
+  refine ⟨_, List.mem_of_getElem? (i := 16) rfl, by decide, by decide, by decide, by decide, by decide⟩
+
+/-- **Anatomy of an accepted request to a class of the ControlledGate hierarchy** (any class description, any policy):
+exactly one target; the controls as listed (a bare integer is one control; exactly one control under the TwoQubitGate
+guard); the object carries the given control_value if the chain hands it on — for the one-control classes after it
+passed the guard, the guard's default when none is given -/
+theorem ctor_controlled_anatomy (P : Policy) (e : ClassInfo) (r : Req) (o : Obj) (hc : e.controlled = true)
+    (h : construct P e r = .ok o) :
+    (∃ t, o.targets = some [t] ∧ r.targets.norm = some [t]) ∧
+    (∃ cs, o.controls = some cs ∧ r.controls.norm = some cs ∧ (e.arity = .two → cs.length = 1)) ∧
+    o.cv = cvOf P e r ∧
+    (e.oneCtrl = true → ∀ v, (if e.fwdCV then r.cv.toOpt else none) = some v → v ∈ P.accepted) :=
+  construct_controlled hc h
+
+/-- **The request is honoured** — partial: for classes whose constructor chain hands a given control_value on
+(`fwdCV`; every class of the current source except CPHASE).  The object of an accepted request carries the REQUESTED
+control value; a one-control class substitutes the guard's default only when none is given -/
+theorem ctor_request_honoured_partial (P : Policy) (e : ClassInfo) (r : Req) (o : Obj) (hf : e.fwdCV = true)
+    (h : construct P e r = .ok o) :
+    o.cv = if e.controlled && e.oneCtrl then some (r.cv.toOpt.getD P.dflt) else r.cv.toOpt := by
+  by_cases hc : e.controlled = true
+  · have := (construct_controlled hc h).2.2.1
+    rw [this]; unfold cvOf
+    by_cases ho : e.oneCtrl = true <;> simp [hc, ho, hf]
+  · have hc' : e.controlled = false := by simpa using hc
+    have := (construct_plain (P := P) hc' h).2.2.1
+    rw [this]; simp [hc']
+
+example : ∃ e ∈ G.ctorTable, e.key = "ControlledGate:RX" ∧ e.fwdCV = true ∧
+    construct G.ctorPolicy e ⟨.list [2], .list [1, 0], .scalar, .int 2⟩ = .ok ⟨some [2], some [1, 0], some 2⟩ := by
+  refine ⟨_, List.mem_of_getElem? (i := 39) rfl, by decide, by decide, by decide⟩
+
+/-- the request class the partial theorem leaves out, on the current source: `CPHASE` has a parameter `control_value`
+that it does not pass on (`fwdCV = false`, regenerated), so `CPHASE(controls=[0], targets=[1], arg_value=θ,
+control_value=0)` is ACCEPTED, the object carries the guard's default 1 and the matrix is the control-on-1 `cphase(θ)`
+(`hard_values_sound`) — the requested control value 0 is silently dropped.  Stated with the regenerated flag as
+hypothesis, so that it also builds once the class hands the value on (proposed fix C09-2), when it is vacuous. -/
+theorem ctor_cphase_counterexample :
+    ∀ e ∈ G.ctorTable, e.key = "CPHASE" → e.fwdCV = false →
+      construct G.ctorPolicy e ⟨.list [1], .list [0], .scalar, .int 0⟩ = .ok ⟨some [1], some [0], some 1⟩ ∧
+      e.usesCV = false ∧ hardOf e.spec = some (1, 1) := by decide
+
+/-- **Classes outside the ControlledGate hierarchy** (single-qubit, two-qubit, TOFFOLI, FREDKIN, the generic `Gate`):
+the object carries targets / controls / control_value as given (a bare integer = one-element list), the guards of the
+arity class hold, and — unless the class has the fixed-control-value guard of the proposed fix — acceptance does not
+depend on control_value at all; `get_compact_qobj` never reads it (`compact` is `plain`) -/
+theorem ctor_plain_anatomy (P : Policy) (e : ClassInfo) (r : Req) (o : Obj) (hc : e.controlled = false)
+    (h : construct P e r = .ok o) :
+    o.targets = r.targets.norm ∧ o.controls = r.controls.norm ∧ o.cv = r.cv.toOpt ∧
+    (e.arity = .single → (∃ t, o.targets = some [t]) ∧ (o.controls = none ∨ o.controls = some [])) ∧
+    (e.arity = .two → ((o.controls.getD []) ++ (o.targets.getD [])).length = 2) ∧
+    ((e.fixedGuard && !e.generic) = false → e.cvRequired = false →
+      ∀ v, construct P e { r with cv := v } = .ok { o with cv := v.toOpt }) :=
+  construct_plain hc h
+
+/-- … so for the controlled gates among them the requested control value is ignored on the current source
+(`fixedGuard = false`, regenerated): `TOFFOLI(controls=[0, 1], targets=[2], control_value=0)`,
+`FREDKIN(controls=[0], targets=[1, 2], control_value=0)` and `Gate("CNOT", controls=[0], targets=[1], control_value=0)`
+are ACCEPTED, carry control_value 0, and return the matrix built on control value 3 resp. 1 (`hard_values_sound`).
+Vacuous once the classes call the guard (proposed fix C09-3). -/
+theorem ctor_fixed_counterexample :
+    (∀ e ∈ G.ctorTable, e.key = "TOFFOLI" → e.fixedGuard = false →
+      construct G.ctorPolicy e ⟨.list [2], .list [0, 1], .absent, .int 0⟩ = .ok ⟨some [2], some [0, 1], some 0⟩ ∧
+      e.usesCV = false ∧ hardOf e.spec = some (2, 3)) ∧
+    (∀ e ∈ G.ctorTable, e.key = "FREDKIN" → e.fixedGuard = false →
+      construct G.ctorPolicy e ⟨.list [1, 2], .list [0], .absent, .int 0⟩ = .ok ⟨some [1, 2], some [0], some 0⟩ ∧
+      e.usesCV = false ∧ hardOf e.spec = some (1, 1)) ∧
+    (∀ e ∈ G.ctorTable, e.key = "Gate:CNOT" → e.fixedGuard = false →
+      construct G.ctorPolicy e ⟨.list [1], .list [0], .absent, .int 0⟩ = .ok ⟨some [1], some [0], some 0⟩ ∧
+      e.usesCV = false ∧ hardOf e.spec = some (1, 1)) := by
+  refine ⟨by decide, by decide, by decide⟩
+
+/-- `QubitCircuit.add_gate(name, …)` passes every absent argument as None (`Req.viaCircuit`): whatever the class path
+serves, the circuit path serves with the same object, hence the same matrix -/
+theorem ctor_circuit_agrees (P : Policy) (e : ClassInfo) (r : Req) (o : Obj) (h : construct P e r = .ok o) :
+    construct P e r.viaCircuit = .ok o := construct_viaCircuit h
+
+/-- **The matrix of a class that reads `control_value`** (`ControlledGate.get_compact_qobj`, i.e. ControlledGate itself
+and CX, CY, CS, CT, CRX, CRY, CRZ): for an object with `m` listed controls and control value `v < 2^m`, whatever the
+target gate's matrix `U`, it is `ctrlN m v U` on the qubits (controls 0..m-1 in listed order — first listed most
+significant —, target m): U on the target exactly when the controls hold `v` (`controlled_apply`), unitary when U is -/
+theorem ctor_controlled_matrix (ct : Which) (e : ClassInfo) (r : Req) (o : Obj) (cs : List Int) (v : ℕ)
+    (U : Matrix (Fin 2) (Fin 2) ℂ)
+    (hu : e.usesCV = true) (hg : (e.generic && e.fixedGuard) = false) (ha : argCheck e.argSpec r.arg = .ok ())
+    (hc : o.controls = some cs) (hcv : o.cv = some (v : Int)) (hv : v < 2 ^ cs.length) :
+    ∃ res, compact ct e r o = .ok (.block res) ∧ res.K = cs.length + 1 ∧
+      (Matrix.of fun x y : St (cs.length + 1) => evalC U (res.entry (bitsL x) (bitsL y))) =
+        (tgQ (cs.length + 1) (List.range cs.length ++ [cs.length]) (List.range cs.length).length (by simp)
+          (range_snoc_nodup _) (range_snoc_lt _)).embed (ctrlN (List.range cs.length).length v U) := by
+  obtain ⟨res, h1, h2, h3⟩ := compact_block ct e r o cs v hu hg ha hc hcv hv
+  refine ⟨res, h1, h2, ?_⟩
+  ext x y
+  have bx : ∀ z : St (cs.length + 1), Bits (cs.length + 1) (bitsL z) := fun z =>
+    ⟨bitsL_length z, fun e he => by
+      simp only [bitsL, List.mem_ofFn] at he; obtain ⟨i, rfl⟩ := he; exact (z i).isLt⟩
+  rw [Matrix.of_apply, h3 _ _ (bx x) (bx y),
+    spec_eq_embed (cs.length + 1) (List.range cs.length) cs.length v U (range_snoc_nodup _) (range_snoc_lt _) x y]
+
+example : ∃ e ∈ G.ctorTable, e.key = "CX" ∧ e.usesCV = true ∧ (e.generic && e.fixedGuard) = false ∧
+    argCheck e.argSpec .absent = .ok () := by
+  refine ⟨_, List.mem_of_getElem? (i := 30) rfl, by decide, by decide, by decide, by decide⟩
+
+/-- a control value outside the blocks is refused at `get_compact_qobj` (IndexError of `controlled_gate`), None is a
+TypeError; a negative value −k (k ≤ 2^m) selects block 2^m − k (Python indexing, `controlled_gate_shapes`) -/
+theorem ctor_controlled_value_refused (ct : Which) (e : ClassInfo) (r : Req) (o : Obj) (cs : List Int)
+    (hu : e.usesCV = true) (hg : (e.generic && e.fixedGuard) = false) (ha : argCheck e.argSpec r.arg = .ok ())
+    (hc : o.controls = some cs) :
+    (o.cv = none → ∃ x, compact ct e r o = .error x ∧ x = .cvNone) ∧
+    (∀ v : Int, o.cv = some v → (((2 ^ cs.length : ℕ) : Int) ≤ v ∨ v < -((2 ^ cs.length : ℕ) : Int)) →
+      ∃ x, compact ct e r o = .error x ∧ x = .ctrl .blockIndex) := by
+  refine ⟨fun h => ⟨_, ?_, rfl⟩, fun v h hv => ⟨_, ?_, rfl⟩⟩
+  · unfold compact
+    simp only [hg, Bool.false_eq_true, if_false, ha, hu, if_true, h]
+  · unfold compact
+    simp only [hg, Bool.false_eq_true, if_false, ha, hu, if_true, h, hc, Option.getD_some]
+    have := build_rejects_value ((List.range cs.length).map Int.ofNat) [Int.ofNat cs.length] none v (by simpa using hv)
+    rw [controlledGate_lists, this]
 
 /-! ## The names each lookup path offers -/
 
